@@ -212,6 +212,25 @@ class FlowRobust:
                 m = g.enc_msg(sets)
                 if len(m) < 60000:
                     out.append("%s %s %s" % (cmd, hx(addr), hx(m)))
+        # a WELL-FILLED cache (several exporters, several hundred templates, announced by ordinary template messages) and then
+        # datagrams made of as many sets as fit: unknown ids, ids of other exporters, reserved ids, empty sets - whatever an
+        # error path does per set must not grow with what earlier payloads installed
+        for p in ("ipfix", "nf9"):
+            g = gens[p]; cmd = "ipfixh" if p == "ipfix" else "nf9h"
+            for rep in range(1 if tier == "quick" else 6):
+                toks = []
+                owners = [rand_addr(rng) for _ in range(3)]
+                for k in range(rng.choice([4, 6])):
+                    recs = b"".join(g.enc_tpl(Tpl(1000 + 170 * k + j, [], [(rng.choice([1, 2, 8, 12]), 0, rng.choice([4, 8]))]), False) for j in range(170))
+                    toks += [hx(owners[k % 3]), hx(g.enc_msg([g.enc_set(g.tpl_set_id(False), recs)]))]
+                sender = rng.choice(owners + [rand_addr(rng)])
+                for kind in range(3):
+                    ids = {0: [rng.randrange(2000, 60000) for _ in range(340)],                 # unknown ids
+                           1: [1000 + j for j in range(340)],                                    # ids some exporter announced (maybe not this one)
+                           2: [rng.choice([4, 5, 100, 255, 9, 10]) for _ in range(340)]}[kind]   # reserved ids
+                    sets = [g.enc_set(i, b"") for i in ids]
+                    toks += [hx(sender), hx(g.enc_msg(sets))]
+                out.append(cmd + " " + " ".join(toks))
         # every truncation offset of a message announcing a plain and an options template (variable-length scope field), and of its data
         for p in ("ipfix", "nf9"):
             g = gens[p]; cmd = "ipfixh" if p == "ipfix" else "nf9h"; addr = rand_addr(rng)
